@@ -274,6 +274,45 @@ PROPS = {
         "assumptions": ["flowinfo / scope id of a SocketAddrV6 are not part of a target (dropped by ip().to_string(), zero after SocketAddr::new)",
                         "transport failures (FailedFetch) and the status adapter are outside the property"],
     },
+    "C04": {
+        "props_file": "Props/C04.v",
+        "run_files": ["Run/CaseConn.v", "Run/CaseC09.v"],
+        "imports": ["Lib.Bytes", "Codec.Desc", "Conn.Types", "Conn.Prog", "Conn.Sem1", "Run.CaseConn"],
+        "case_type": "conn_case",
+        "checkers": {"BASE": "check_c04b", "MAL": "check_c04b", "C06": "check_c04b"},
+        "harness": [{"bin": "conn", "env": {"VERIF_FAMILIES": "BASE,MAL,C06"}}, {"bin": "codec", "families": ["DEC"], "case_type": "c09case", "imports": ["Lib.Bytes", "Codec.VarInt", "Codec.Desc", "Gen.PacketsGen", "Run.CaseC09"], "checkers": {"DEC": "check_c04_dec"}, "shard": 250}],
+        "shard": 40,
+        "quick_scale": 1, "thorough_scale": 8, "search_factor": 4,
+        "ties": ["conn binary: real Connection::listen on a scripted transport/client/adapters in a paused runtime vs Conn.Sem1.run1 (sends, calls, outcome, virtual ms)",
+                 "Gen/PacketsGen.v descriptors decode the client's frames and encode the model's packets"],
+        "allowed_axioms": [],
+        "rule": 'conn binary family MAL: status/login/transfer transcripts with one frame mutated at every protocol state (hostile outer lengths -2^31,-1,0,2^31-1,over-long, max, max+1 followed by a 5 s pause before the body; declared length off by one; truncation + end of stream; hostile inner lengths; invalid UTF-8 / ordinals; random bytes; RSA blobs of 0/127/128/129/4096 bytes; frames of exactly max and max+1 bytes; mutations after encryption started) delivered as raw byte segments; plus the codec DEC cases (mutated encodings through every packet decoder with the counting allocator); non-trivial = distinct case that consumed at least one frame',
+        "trusted_base": COMMON_TB + ["Conn/Prog.v: hand transcription of Connection::listen into the program datatype (tied by the conn correspondence: every case compares the model's sends, adapter calls, outcome and virtual times with the real Connection::listen)",
+                                     "Conn/Sem1.v: frame-level semantics incl. a hand model of tokio 1.49 Interval (MissedTickBehavior::Skip), validated by every timed conn case",
+                                     "RSA PKCS#1 v1.5, serde_json, uuid generation, SystemTime: oracles recorded per case / universally quantified in the theorems",
+                                     "monitor on the implementation's trace: observable events are the implementation's, unobservable ones (frame consumption, fresh values) are aligned from the model's run"],
+        "assumptions": ["frames delivered atomically (segmentation is C08's subject)", "event times distinct from tick instants and adapter completions"],
+    },
+    "C08": {
+        "props_file": "Props/C08.v",
+        "run_files": ["Run/CaseConn.v"],
+        "imports": ["Lib.Bytes", "Codec.Desc", "Conn.Types", "Conn.Prog", "Conn.Sem1", "Run.CaseConn"],
+        "case_type": "conn_case",
+        "checkers": {"BASE": "check_c08b", "SEG": "check_c08b", "MAL": "check_c08b"},
+        "harness": [{"bin": "conn", "env": {"VERIF_FAMILIES": "BASE,SEG,MAL"}}],
+        "shard": 40,
+        "quick_scale": 1, "thorough_scale": 8, "search_factor": 4,
+        "ties": ["conn binary: real Connection::listen on a scripted transport/client/adapters in a paused runtime vs Conn.Sem1.run1 (sends, calls, outcome, virtual ms)",
+                 "Gen/PacketsGen.v descriptors decode the client's frames and encode the model's packets"],
+        "family_types": {"SEGP": {"case_type": "seg_pair", "imports": ["Lib.Bytes", "Conn.Types", "Run.CaseConn"], "checkers": {"SEGP": "check_seg_pair"}}},
+        "allowed_axioms": [],
+        "rule": 'conn binary family SEG: each scenario run whole and again with every client frame cut (one byte at a time, after the length prefix, before the last byte, at seeded offsets, 3 cuts) with 3 ms gaps and, in a third of the cases, a transport that accepts 1 or 7 bytes per write; the pair is compared on packets sent, services consulted and outcome (SEGP); every run is also compared with M1 applied to the byte-level reader; non-trivial = distinct segmented case',
+        "trusted_base": COMMON_TB + ["Conn/Prog.v: hand transcription of Connection::listen into the program datatype (tied by the conn correspondence: every case compares the model's sends, adapter calls, outcome and virtual times with the real Connection::listen)",
+                                     "Conn/Sem1.v: frame-level semantics incl. a hand model of tokio 1.49 Interval (MissedTickBehavior::Skip), validated by every timed conn case",
+                                     "RSA PKCS#1 v1.5, serde_json, uuid generation, SystemTime: oracles recorded per case / universally quantified in the theorems",
+                                     "monitor on the implementation's trace: observable events are the implementation's, unobservable ones (frame consumption, fresh values) are aligned from the model's run"],
+        "assumptions": ["frames delivered atomically (segmentation is C08's subject)", "event times distinct from tick instants and adapter completions"],
+    },
 }
 
 
@@ -303,6 +342,13 @@ def match_known(pid, known, case):
         if m.get("family") and m["family"] != fam: continue
         if m.get("regex") and not re.search(m["regex"], term): continue
         if m.get("family") or m.get("regex"):
+            return k
+    return None
+
+
+def match_known_class(pid, known, cls):
+    for k in known:
+        if k.get("status") == "known" and k.get("match", {}).get("class") == cls:
             return k
     return None
 
